@@ -771,7 +771,63 @@ def r02_12(ctx):
     return rr
 
 
-RULES = [r02_1, r02_2, r02_3, r02_4, r02_5, r02_6, r02_7, r02_8, r02_9, r02_10, r02_11, r02_12]
+# (door module, door function, node class, what the door short-circuits, reviewed outside builders {construct: reason})
+PRECONDITION_DOORS = [
+    ("dask_array.manipulation._reshape", "reshape", "Reshape",
+     "an identity reshape (returns x), a single-partition input (ReshapeLowered) and - through them - 0-d inputs: Reshape.chunks runs reshape_rechunk, which indexes the input shape", {}),
+]
+
+
+def r02_13(ctx):
+    rr = RuleResult(
+        "R02.13", "WHO",
+        "a node class whose public door short-circuits degenerate inputs is rebuilt by rewrites through that door (Reshape: reshape() returns x for an identity reshape and a "
+        "ReshapeLowered for a single-partition input, and the node's own chunks property relies on that): a direct construction inside a rewrite hands the node inputs the door "
+        "would never give it",
+        min_instances=1,
+    )
+    repo = ctx.repo
+    for dmod, dname, cls_name, what, reviewed in PRECONDITION_DOORS:
+        door = repo.mod(dmod).func(dname)
+        cls = repo.find_class(cls_name)
+        rets = [r for r in body_walk(door.node) if isinstance(r, ast.Return) and r.value is not None]
+
+        def builds(node):
+            for n in ast.walk(node):
+                if isinstance(n, ast.Call) and isinstance(n.func, (ast.Name, ast.Attribute)):
+                    r = repo.resolve_expr(n.func, door.module, door)
+                    if r and r[0] == "class" and r[1].fq == cls.fq:
+                        return True
+            return False
+
+        shortcuts = [r for r in rets if not builds(r.value)]
+        rr.inst(door.construct + "::shortcuts", count=len(shortcuts), builds_node=any(builds(r.value) for r in rets))
+        need(any(builds(r.value) for r in rets), f"{dname} builds {cls_name}")
+        if not shortcuts:
+            ctx.finding(rr, door.construct + "::shortcuts", f"{dname} no longer short-circuits {what}", func=door)
+        for f in repo.all_functions():
+            if "/tests/" in f.module.relpath or f is door:
+                continue
+            for n in body_walk(f.node):
+                if isinstance(n, ast.Call) and isinstance(n.func, (ast.Name, ast.Attribute)):
+                    r = repo.resolve_expr(n.func, f.module, f)
+                    if not (r and r[0] == "class" and r[1].fq == cls.fq):
+                        continue
+                    cst = f"{f.construct}::{cls_name}(...)"
+                    rr.inst(cst, reviewed=f.construct in reviewed)
+                    if f.construct in reviewed:
+                        rr.exempt(cst, reviewed[f.construct])
+                        continue
+                    ctx.finding(
+                        rr, cst,
+                        f"{f.qualname} builds a {cls_name} node directly instead of going through {dname}(): the door short-circuits {what}. "
+                        f"da.corrcoef(x)[3] (a (n,) -> (n, 1) reshape sliced by an integer) built Reshape over a 0-d input and raised IndexError while being optimized",
+                        func=f, node=n,
+                    )
+    return rr
+
+
+RULES = [r02_1, r02_2, r02_3, r02_4, r02_5, r02_6, r02_7, r02_8, r02_9, r02_10, r02_11, r02_12, r02_13]
 
 LEVEL_TEXT = (
     "Static decision of sentence 3 of C02 (fusion preserves the output-block -> input-block mapping) as sibling agreement "
